@@ -15,7 +15,7 @@ if HARNESS not in sys.path:
 
 GP = ('gp_bandit', 'gp_ucb_pe')
 NONGP_NAMES = ('random', 'quasi_random', 'grid', 'eagle', 'nsga2')
-DESIGNERS = NONGP_NAMES + GP
+DESIGNERS = NONGP_NAMES + GP + ('scalarizing',)
 _preimported = set()
 
 
@@ -232,6 +232,14 @@ def designer_factory(name, opts=None):
         return m.VizierGPUCBPEBandit(p, **kw)
       return m.VizierGPUCBPEBandit(p, rng=jax.random.PRNGKey(seed), **kw)
     return f
+  if name == 'scalarizing':
+    # the seeded factory of an ensemble of scalarized designers (multi-objective problems): the seed draws
+    # the scalarization weights and is handed on to every member designer
+    from vizier._src.algorithms.designers import random as rd
+    from vizier._src.algorithms.designers import scalarization
+    from vizier._src.algorithms.designers import scalarizing_designer as m
+    return lambda p, seed=None: m.create_gaussian_scalarizing_designer(
+        p, rd.RandomDesigner.from_problem, lambda w: scalarization.LinearScalarization(weights=w), num_ensemble=3, seed=seed)
   raise ValueError(name)
 
 
@@ -244,6 +252,9 @@ def run_designer_case(case):
   problem = build_problem(spec)
   try:
     d = designer_factory(case['designer'], case.get('opts'))(problem, seed=case['seed'])
+    if (case.get('opts') or {}).get('weights_only'):
+      # what the seed determines directly: the ensemble members (named by their scalarization weights)
+      return {'suggestions': sorted(str(k) for k in d._designers)}   # pylint: disable=protected-access
     tid = 1
     prefix = []
     for h in case.get('prefix', []):
@@ -317,6 +328,20 @@ def run_benchmark_case(case):
       from vizier._src.benchmarks.experimenters.synthetic import bbob
       base = numpy_experimenter.NumpyExperimenter(bbob.Sphere, build_problem(spec))
       return noisy_experimenter.NoisyExperimenter.from_type(base, 'SEVERE_ADDITIVE_GAUSSIAN', seed=case['exp_seed'])
+    if case.get('experimenter') == 'hashinf':
+      # infeasibility decided by a hash of the parameters and the experimenter seed
+      from vizier._src.benchmarks.experimenters import infeasible_experimenter
+      from vizier._src.benchmarks.experimenters import numpy_experimenter
+      from vizier._src.benchmarks.experimenters.synthetic import bbob
+      base = numpy_experimenter.NumpyExperimenter(bbob.Sphere, build_problem(spec))
+      return infeasible_experimenter.HashingInfeasibleExperimenter(base, infeasible_prob=0.5, seed=case['exp_seed'])
+    if case.get('experimenter') == 'factory':
+      # the benchmark factory's stacking: shift, normalise, discretise / categorise on a grid, permute, noise
+      from vizier._src.benchmarks.experimenters import experimenter_factory as ef
+      return ef.SingleObjectiveExperimenterFactory(
+          ef.BBOBExperimenterFactory('Sphere', 3), shift=np.array([0.5, -0.3, 0.1]), noise_type='SEVERE_ADDITIVE_GAUSSIAN',
+          noise_seed=case['exp_seed'], num_normalization_samples=4, discrete_dict={1: 3}, categorical_dict={0: 4},
+          permute_categoricals=True, permute_seed=case['exp_seed'])()
     return SeededNoisyExperimenter(case['exp_seed'])
   try:
     factory = benchmark_state.ExperimenterDesignerBenchmarkStateFactory(
